@@ -13,10 +13,11 @@ Encodings (no spaces inside a token; `~` stands for a space inside a sort text):
 Requests
 * `smtsolver <logic> <verdicts|-> <ops…>`: run the wrapper model against the strict solver whose `check-sat`
   answers the scripted verdicts (comma separated, in order; `unknown` when exhausted).  Answer:
-  `ok <stream> | <outs> | <declared_vars> | <declared_sorts> | <pending_pop> <dead> <queue length> <strict levels>`
-  where `<stream>` has a `#` token in front of the commands of every API call (the first group is `__init__`),
-  commands are rendered `so:k:v sl:L ds:name:arity df:name:sort as:id pu:n po:n ra cs gv:id ex`, a command the
-  strict solver rejected is prefixed with `!`, levels are separated by `;` (outermost first), names by `,` (sorted).
+  `ok <stream> | <out>@<declared_vars>@<declared_sorts>@<pending_pop T|F>@<strict levels> … | <dead> <queue length>`
+  (one `<out>@…` entry per API call: result and bookkeeping after the call) where `<stream>` has a `#` token in
+  front of the commands of every API call (the first group is `__init__`), commands are rendered
+  `so:k:v sl:L ds:name:arity df:name:sort as:id pu:n po:n ra cs gv:id ex`, a command the strict solver rejected
+  is prefixed with `!`, levels are separated by `;` (outermost first), names by `,` (sorted).
 * `strict <cmd…>` with `cs=<verdict>`: `accept` or `reject <index>`.
 -/
 open PySMT PySMT.StrictSolver PySMT.SmtSolver
@@ -141,10 +142,10 @@ def runShow (S : Solver) (strictLevels : S.σ → Nat) (logic : String) (ops : L
     let r := step w a
     w := r.1
     toks := toks ++ ("#" :: showEvents (w.chan.trace.drop before))
-    outs := outs ++ [showOut r.2]
+    outs := outs ++ [showOut r.2 ++ "@" ++ levelsStr (·.name) w.vars ++ "@" ++ levelsStr (·.name) w.sorts ++ "@" ++
+      (if w.pendingPop then "T" else "F") ++ "@" ++ toString (strictLevels w.chan.solver)]
   return "ok " ++ " ".intercalate toks ++ " | " ++ " ".intercalate outs ++ " | " ++
-    levelsStr (·.name) w.vars ++ " | " ++ levelsStr (·.name) w.sorts ++ " | " ++
-    s!"{w.pendingPop} {w.dead} {w.chan.queue.length} {strictLevels w.chan.solver}"
+    s!"{w.dead} {w.chan.queue.length}"
 
 def answer (line : String) : String :=
   match (line.splitOn " ").filter (· ≠ "") with
